@@ -458,7 +458,7 @@ def snapCheck (st : St) (toks : List String) (opS impl : String) : List (String 
   -- catalogue listings: sizes move by one batch header when a buffer is persisted and member counts
   -- fall to 0 when connections are lost, so the last field of every entity is masked
   let isCat := op == "streams" || op == "stream" || op == "topics" || op == "groups"
-  let isPlain := op == "users" || op == "user"
+  let isPlain := op == "users" || op == "user" || op == "created"
   let maskLast (x : String) : String :=
     " ".intercalate ((x.splitOn " ").map (fun w => ",".intercalate ((w.splitOn ",").map (fun e =>
       let f := e.splitOn ":"
@@ -1581,6 +1581,21 @@ def main (args : List String) : IO UInt32 := do
       if !u.isEmpty then
         bad := bad + 1
         if bad ≤ 20 then IO.println s!"UNSOUND idx={i} rules={u}"
+      i := i + 1
+    IO.println s!"DONE checked={b - a} unsound={bad}"
+    return 0
+  | ["permsound", a, b, ks, kt] =>
+    let a := a.toNat?.getD 0
+    let b := b.toNat?.getD 0
+    let ks := ks.toNat?.getD Perm.S
+    let kt := kt.toNat?.getD Perm.T
+    let mut i := a
+    let mut bad := 0
+    while i < b do
+      let u := Perm.unsoundAtKeys i ks kt
+      if !u.isEmpty then
+        bad := bad + 1
+        if bad ≤ 20 then IO.println s!"UNSOUND idx={i} rules={u} record-about-stream={ks} topic={kt}"
       i := i + 1
     IO.println s!"DONE checked={b - a} unsound={bad}"
     return 0
